@@ -28,6 +28,8 @@ DOMAINS = {
     'list1': ((), (1,)),
     'int': (((0, 3),), ()),
     'int-single': (((7, 7),), ()),
+    'int-huge': (((10 ** 18 + 1, 10 ** 18 + 9),), ()),
+    'int-huge-single': (((2 ** 53 + 1, 2 ** 53 + 1), (-2 ** 63 - 1, -2 ** 63 + 1)), ()),
     'int-wide': (((-5, 40),), ()),
     'int2': (((0, 1), (10, 12)), ()),
     'float1': (((0.5, 1.5),), ()),
@@ -46,6 +48,7 @@ def _alphabet(tier):
              cm.on_carrier([('AND', 'x', ('OR', 'y', 'z')), ('EXCLUDES', 'x', 'z')]),
              cm.on_carrier([('XOR', 'x', 'y')]),
              cm.on_carrier([('IMPLIES', 'x', ('EQUIVALENCE', 'y', 'z')), ('NOT', ('XOR', 'x', 'z'), None)]),
+             cm.on_carrier([('OR', ('OR', ('AND', 'x', 'y'), 'z'), 'x'), ('AND', ('OR', 'x', ('OR', 'y', ('AND', 'z', 'x'))), 'y')]),
              sh.M(sh.F('Fa', [sh.R(1, 2, [sh.F('Bb'), sh.F('Dc')]), sh.R(1, 1, [sh.F('Ad', [sh.R(0, 1, [sh.F('Ee')])])])]))]
     # 4-feature models whose root owns a 2-child group and one grouped child has a child of its own:
     # same parent / children names / bounds as a 3-feature model of the alphabet, different subtree
@@ -54,7 +57,7 @@ def _alphabet(tier):
 
 
 def _sub_alphabet(alpha):
-    return alpha[:4] + alpha[10:12] + alpha[28:34:2] + alpha[-5:]
+    return alpha[:4] + alpha[10:12] + alpha[28:34:2] + alpha[-6:]
 
 
 def cases(tier, seed):
